@@ -64,7 +64,8 @@ Proof.
   induction 1 as [|[e rx] items Hok _ IH]; intros s dr pf Hs.
   - exists s. split; [done|]. split; [done|]. by rewrite app_nil_r.
   - unfold parse_rxns. cbn [fmap list_fmap foldl].
-    destruct (add_from_str_line s ii e rx Hok) as (s1 & e1 & Hadd & Hfresh & Hedges). cbn [fst snd]. rewrite Hadd.
+    destruct (add_from_str_line s ii e rx Hok) as (s1 & e1 & Hadd & Hfresh & Hedges). cbn [fst snd].
+    rewrite (rule_or_default_line ii e rx dr Hok), Hadd.
     destruct (add_from_str_appends _ _ _ _ _ Hadd) as (e2 & rx2 & Hf2 & He2 & Ho2).
     destruct (insert_fresh_inj (edges s) e1 e2 rx rx2 Hfresh Hf2) as [-> ->]; [by rewrite <-Hedges|].
     destruct (appended_seq s s1 e2 rx2 Hs Hf2 He2 Ho2) as [Hs1 Hseq].
